@@ -32,3 +32,43 @@ func VerifMarkAtTail(r transports.Registration, data []byte) bool {
 	mark := generateMark(k.NodeID, k.PublicKey, &rep)
 	return findMarkMac(mark, data, ntor.RepresentativeLength+ClientMinPadLength, MaxHandshakeLength, true) != -1
 }
+
+// VerifMarkOf: the mark WrapConnection computes for registration r over the representative at the head of
+// data (generateMark with the registration's keys); nil when the registration yields no keys.
+func VerifMarkOf(r transports.Registration, data []byte) []byte {
+	if len(data) < ntor.RepresentativeLength {
+		return nil
+	}
+	if r.TransportKeys() == nil {
+		keys, err := generateObfs4Keys(r.TransportReader())
+		if err != nil {
+			return nil
+		}
+		if err = r.SetTransportKeys(keys); err != nil {
+			return nil
+		}
+	}
+	k, ok := r.TransportKeys().(Obfs4Keys)
+	if !ok {
+		return nil
+	}
+	var rep ntor.Representative
+	copy(rep[:ntor.RepresentativeLength], data[:ntor.RepresentativeLength])
+	return generateMark(k.NodeID, k.PublicKey, &rep)
+}
+
+// VerifFindMarkTail runs the package's findMarkMac the way WrapConnection calls it (fromTail) with any
+// start / cut-off; a panic is an answer.
+func VerifFindMarkTail(mark, buf []byte, startPos, maxPos int) (pos int, panicked bool) {
+	defer func() {
+		if recover() != nil {
+			pos, panicked = -1, true
+		}
+	}()
+	return findMarkMac(mark, buf, startPos, maxPos, true), false
+}
+
+// VerifSearchWindow: the start offset and cut-off WrapConnection passes to findMarkMac.
+func VerifSearchWindow() (startPos, maxPos int) {
+	return ntor.RepresentativeLength + ClientMinPadLength, MaxHandshakeLength
+}
